@@ -727,6 +727,43 @@ def F39():
         res.append(r)
     return any(r is True for r in res), "verify_input of a signature-free p2sh spend with opcodes after the RedeemScript -> %s" % res
 
+def F40():
+    """library-built PSBT with a testnet global xpub at origin m/45': serialise -> parse (default arguments) -> serialise"""
+    from io import BytesIO
+    from buidl.hd import HDPrivateKey
+    from buidl.psbt import PSBT, NamedHDPublicKey
+    from buidl.script import P2WPKHScriptPubKey
+    from buidl.tx import Tx, TxIn, TxOut
+    root = HDPrivateKey.from_mnemonic("abandon " * 11 + "about", network="testnet")
+    named = NamedHDPublicKey.from_hd_priv(root, "m/45'")
+    tx = Tx(2, [TxIn(bytes(32), 0)], [TxOut(1000, P2WPKHScriptPubKey(bytes(20)))], 0, network="testnet")
+    psbt = PSBT.create(tx)
+    psbt.hd_pubs[named.raw_serialize()] = named
+    b = psbt.serialize()
+    b2 = PSBT.parse(BytesIO(b)).serialize()
+    diff = [i for i, (x, y) in enumerate(zip(b, b2)) if x != y]
+    return b2 != b, "re-serialised bytes %s (version bytes %s -> %s)" % ("differ" if b2 != b else "identical", b[92:96].hex(), b2[92:96].hex())
+
+def F41():
+    """create_multisig_psbt(...).combine(PSBT.parse(its own bytes)): number of global xpubs and re-serialisation"""
+    import ast as _ast
+    from buidl.psbt import PSBT
+    from buidl.psbt_helper import create_multisig_psbt
+    repo = os.environ.get("VERIF_REPO", "/repo")
+    tree = _ast.parse(open(os.path.join(repo, "buidl/test/test_psbt_helper.py")).read())
+    kwargs = None
+    for n in _ast.walk(tree):
+        if isinstance(n, _ast.FunctionDef) and n.name == "test_sweep_1of2_p2sh":
+            for st in n.body:
+                if isinstance(st, _ast.Assign) and isinstance(st.targets[0], _ast.Name) and st.targets[0].id == "kwargs":
+                    kwargs = _ast.literal_eval(st.value)
+    built = create_multisig_psbt(**kwargs, script_type="p2sh")
+    b = built.serialize()
+    built.combine(PSBT.parse(BytesIO(b), network="testnet"))
+    c = built.serialize()
+    again = PSBT.parse(BytesIO(c), network="testnet").serialize()
+    return len(built.hd_pubs) != 2 or again != c, "2 cosigners: %d global xpubs after built.combine(parsed); combined PSBT re-serialises to itself: %s" % (len(built.hd_pubs), again == c)
+
 def K1():
     from buidl.op import op_2rot
     st = [b"1", b"2", b"3", b"4", b"5", b"6"]
